@@ -8,6 +8,7 @@ import (
 	"bytes"
 	"errors"
 	"fmt"
+	"net"
 	"os"
 	"os/exec"
 	"strconv"
@@ -19,6 +20,7 @@ import (
 	"mangosverif/wire"
 
 	"go.nanomsg.org/mangos/v3"
+	"go.nanomsg.org/mangos/v3/transport/ws"
 )
 
 type plumbing struct {
@@ -539,6 +541,66 @@ func scRetry(rt, wait int) string {
 	}
 }
 
+// scOrigin: a ws listener whose WEBSOCKET-CHECKORIGIN is set to the given values in turn ("t"/"f"); then an upgrade request
+// whose Origin differs from the Host.  "refused" (403) or "accepted" (101).
+func scOrigin(sets []string) string {
+	sock := wire.New("pair")
+	defer sock.Close()
+	addr := wire.Addr("ws")
+	l, err := sock.NewListener(addr, nil)
+	if err != nil {
+		return "listener:" + short(err)
+	}
+	half := len(sets) / 2
+	apply := func(xs []string) string {
+		for _, x := range xs {
+			if x == "-" {
+				continue
+			}
+			if err := l.SetOption(ws.OptionWebSocketCheckOrigin, x == "t"); err != nil {
+				return "set:" + short(err)
+			}
+			if v, err := l.GetOption(ws.OptionWebSocketCheckOrigin); err != nil || v != (x == "t") {
+				return "get-differs"
+			}
+		}
+		return ""
+	}
+	if r := apply(sets[:half]); r != "" { // some before Listen, the rest on the live listener
+		return r
+	}
+	if err := l.Listen(); err != nil {
+		return "listen:" + short(err)
+	}
+	if r := apply(sets[half:]); r != "" {
+		return r
+	}
+	u := strings.TrimPrefix(addr, "ws://")
+	host := u
+	path := "/"
+	if i := strings.Index(u, "/"); i >= 0 {
+		host, path = u[:i], u[i:]
+	}
+	c, err := net.DialTimeout("tcp", host, 2*time.Second)
+	if err != nil {
+		return "dial:" + short(err)
+	}
+	defer c.Close()
+	_ = c.SetDeadline(time.Now().Add(2 * time.Second))
+	fmt.Fprintf(c, "GET %s HTTP/1.1\r\nHost: %s\r\nUpgrade: websocket\r\nConnection: Upgrade\r\nSec-WebSocket-Key: dGhlIHNhbXBsZSBub25jZQ==\r\n"+
+		"Sec-WebSocket-Version: 13\r\nSec-WebSocket-Protocol: pair.sp.nanomsg.org\r\nOrigin: http://elsewhere.example\r\n\r\n", path, host)
+	buf := make([]byte, 64)
+	n, _ := c.Read(buf)
+	line := string(buf[:n])
+	switch {
+	case strings.HasPrefix(line, "HTTP/1.1 101"):
+		return "accepted"
+	case strings.HasPrefix(line, "HTTP/1.1 403"):
+		return "refused"
+	}
+	return "reply:" + strings.ReplaceAll(strings.SplitN(line, "\r", 2)[0], " ", "-")
+}
+
 func runScenario(spec string) {
 	f := strings.Fields(spec)
 	atoi := func(s string) int { v, _ := strconv.Atoi(s); return v }
@@ -562,6 +624,8 @@ func runScenario(spec string) {
 			out = scSurvey(atoi(f[1]), atoi(f[2]))
 		case "retry":
 			out = scRetry(atoi(f[1]), atoi(f[2]))
+		case "origin":
+			out = scOrigin(f[1:])
 		}
 	}()
 	fmt.Println(out)
@@ -628,6 +692,16 @@ func allScenarios() []scenario {
 	}
 	for _, c := range [][2]int{{0, 300}, {60, 400}, {60000, 300}} {
 		sc = append(sc, scenario{fmt.Sprintf("retry %d %d", c[0], c[1]), fmt.Sprintf("ERetry %d%%N %d%%N", c[0], c[1])})
+	}
+	// the value in force is the last one set (before or after Listen): WEBSOCKET-CHECKORIGIN toggled in every order of up to 3
+	for _, seq := range []string{"", "t", "f", "f t", "t f", "f f", "f t f", "f f t", "t f t", "- f t -", "f - - t"} {
+		var bs []string
+		for _, x := range strings.Fields(seq) {
+			if x != "-" {
+				bs = append(bs, map[string]string{"t": "true", "f": "false"}[x])
+			}
+		}
+		sc = append(sc, scenario{strings.TrimSpace("origin " + seq), "EOrigin " + coqgen.List(bs)})
 	}
 	return sc
 }
